@@ -485,7 +485,7 @@ fn main() {
     let ctx = Ctx::from_env("C09");
     // hang guard: one input may stay current for this long (normal inputs: microseconds to seconds)
     let limit = std::env::var("C09_WATCHDOG_S").ok().and_then(|s| s.parse().ok()).unwrap_or(ctx.tier.pick(120, 300));
-    watch::start(ctx.root.clone(), ctx.id.clone(), limit);
+    watch::start(ctx.root.clone(), ctx.id.clone(), ctx.tier.name(), ctx.seed, limit);
     if ctx.replay_request().is_some() {
         replay(ctx);
     }
